@@ -912,6 +912,11 @@ void matrixSslDeleteSession(ssl_t *ssl)
         }
 # endif
         tls13FreePsk(ssl->sec.tls13SessionPskList, ssl->hsPool);
+        if (ssl->sec.tls13CvSig)
+        {
+            psFree(ssl->sec.tls13CvSig, ssl->hsPool);
+            ssl->sec.tls13CvSig = NULL;
+        }
         if (ssl->sec.tls13CookieFromServer)
         {
             psFree(ssl->sec.tls13CookieFromServer, ssl->hsPool);
